@@ -22,7 +22,7 @@ def DeviceSignatureOk (f : Facts) : Prop :=
   f.deviceAuthIsSignature = true ∧ (∀ a, f.deviceAlg = .assigned a → a = -7) ∧
   f.devicePayloadAttached = false ∧ f.deviceSigParses = true ∧ f.deviceSigAccepts = true
 
-theorem deviceAuthentication_iff (f : Facts) : deviceAuthentication f = some true ↔ DeviceSignatureOk f := by
+theorem deviceAuthentication_iff (f : Facts) : deviceAuthentication f = true ↔ DeviceSignatureOk f := by
   unfold deviceAuthentication DeviceSignatureOk verifySign1 sign1Body selectPayload prim algMismatch
   cases hp : f.issuerPayloadAttached <;> cases hm : f.msoDecodes <;> simp
   cases hk : f.deviceKey with
@@ -52,9 +52,7 @@ theorem C05_device_valid_iff (f : Facts) :
   · by_cases h2 : (f.hasDocuments && f.hasMdlDoc && f.x5chainPresent && f.x5chainParses && f.namespacesPresent && f.coreNamespacePresent) = true
     · simp only [h1, h2, Bool.not_true, Bool.false_eq_true, if_false]
       simp only [Bool.and_eq_true] at h1 h2
-      cases hd : deviceAuthentication f with
-      | none => simp
-      | some dev => cases dev <;> simp [h1, h2]
+      cases hd : deviceAuthentication f <;> simp [h1, h2]
     · simp only [h1, h2, Bool.not_true, Bool.false_eq_true, if_false, Bool.not_false, if_true]
       simp only [Bool.and_eq_true, not_and, Bool.not_eq_true] at h2
       constructor
